@@ -10,3 +10,4 @@ import RaftWal.Props.C06
 #print axioms RaftWal.C06.finalizer_attached_after_publish
 #print axioms RaftWal.C06.writers_wait_for_queued_rotation
 #print axioms RaftWal.C06.every_acquire_is_released_once
+#print axioms RaftWal.C06.refcount_only_through_acquire_release
